@@ -179,6 +179,55 @@ def run(ctx):
                        "total_disagreements": len(ref_bad)})
     ctx.sample({"pattern": cases[len(cases) // 2][0], "subjects": subs[:8]})
     e2e(ctx)
+    e2e_roots(ctx)
+
+
+def glob_escape(t):
+    return "".join("\\" + c if c in "*?[\\" else c for c in t)
+
+
+def e2e_roots(ctx):
+    """-name / -iname on the starting point itself, spelled in every way: the subject is the last component of the path as
+    spelled (model Paths.name_subject, C12_name_subject_*)"""
+    rng = ctx.rng
+    os.makedirs(os.path.join(fw.BUILD, "tmp"), exist_ok=True)
+    d = tempfile.mkdtemp(prefix="c12r-", dir=os.path.join(fw.BUILD, "tmp"))
+    try:
+        os.makedirs(os.path.join(d, "r", "Sub"))
+        open(os.path.join(d, "r", "f.x"), "wb").close()
+        os.symlink("r", os.path.join(d, "lr"))
+        roots = [".", "./", "..", "../", "r", "r/", "r//", "r/.", "r/..", "./r/./", "r/Sub/..", "r/Sub/", ".//r", "/", "//", "///", d + "/r", d + "/r/",
+                 "r/f.x", "lr", "lr/", "lr/.", "r/./Sub", "r//Sub//"]
+        subjects = fw.run_lines(fw.FUVM, ["paths name_subject %s" % fw.hexs(r.encode()) for r in roots], shards=1)
+        cands = [".", "..", "r", "Sub", "sub", "/", "*/*", "?*/", "./", "r/", "f.x", "lr", "*", "[.]", "??", "F.X"]
+        bad = []
+        lines, meta = [], []
+        for r, subj in zip(roots, subjects):
+            subj = fw.unhex(subj).decode()
+            for mode in ("-P", "-H", "-L"):
+                pats = [glob_escape(subj)] + rng.sample(cands, 5 if not ctx.thorough else len(cands))
+                for pat in pats:
+                    for flag, ci in (("-name", 0), ("-iname", 1)):
+                        args = [mode, r, "-maxdepth", "0", flag, pat, "-print0"]
+                        lines.append("find - %s %s" % (fw.hexs(d.encode()), xc.hexlist([a.encode() for a in args])))
+                        meta.append((r, subj, mode, flag, ci, pat))
+        outs = xc.run_impl(lines)
+        for (r, subj, mode, flag, ci, pat), o in zip(meta, outs):
+            code, out, err = wc.decode_find(o)
+            got = out != b""
+            exp = libc.fnmatch(pat.encode(), subj.encode(), FNM_CASEFOLD if ci else 0) == 0
+            ctx.count(("e2e-root", r, mode, flag, pat), True, ["e2e-root" + flag, "root-spelling=%s" % (r if not r.startswith(d) else "ABS" + r[len(d):])])
+            if got != exp or code != 0:
+                bad.append((r, subj, mode, flag, pat, code, got, exp))
+        for r, subj, mode, flag, pat, code, got, exp in bad[:2]:
+            ctx.violation("find %s %r -maxdepth 0 %s %r: exit %s, matched=%s; the subject is %r (last component as spelled), fnmatch says %s"
+                          % (mode, r, flag, pat, code, got, subj, exp),
+                          {"property": "C12", "kind": "name-subject", "mode": mode, "starting_point": r, "test": flag, "pattern": pat, "exit": code,
+                           "implementation_matched": got, "model_subject": subj, "fnmatch": exp,
+                           "explain": "C12_name_subject_*: -name tests the last component of the path as spelled (trailing slashes ignored, '.' and '..' count)"})
+    finally:
+        import shutil
+        shutil.rmtree(d, ignore_errors=True)
 
 
 def e2e(ctx):
